@@ -75,6 +75,10 @@ pub fn handle_peer_message(
     msg: &MarshalledMessage,
     con: &mut DuplexConn,
 ) -> Result<bool, crate::connection::Error> {
+    // only method calls are answered: a signal, a return or an error that names this interface is not for us
+    if !matches!(msg.typ, crate::message_builder::MessageType::Call) {
+        return Ok(false);
+    }
     if let Some(interface) = &msg.dynheader.interface {
         if interface.eq("org.freedesktop.DBus.Peer") {
             if let Some(member) = &msg.dynheader.member {
